@@ -337,7 +337,7 @@ def c03_monitor(ctx, tr, ix):
                         ix.stock.get(p_) is not None and ix.stock[p_]["delisted"] is not None and
                         any(r_[3] >= max([b_[0] // 1000000 for b_ in ix.stock[p_]["bars"].values()] or [0]) for r_ in S["div"].get(p_, []))
                         for p_ in S["trf"])
-                    if conv_pending_div and not near(dp, want, 1e-6) and abs(dp - want) > 1e-4:
+                    if conv_pending_div and not delist_today and not near(dp, want, 1e-6) and abs(dp - want) > 1e-4:      # (delisting days themselves: finding F10, below)
                         ctx.stats["c03_daily_pnl:conversion_with_pending_dividend(F46)"] += 1
                         ctx.witness("C03.5", {"kind": "daily_pnl_identity", "conversion_with_pending_dividend": True},
                                     "%s %s: reported daily P&L %r, change in total value net of flows %r — in a run where a converted (delisted) stock still had a dividend payable on or after its last trading day"
